@@ -79,7 +79,7 @@ Definition check_C15 := failing (run_checker chk_C15).
    balances; the model is not consulted.  Codes:
      11 a record is resolved that is not pending (resolved twice / never recorded)
      12 a pending record (by the events) is missing from the stored records     13 a stored record was never recorded / is already resolved
-     14 a settled record was not pending at the start of the block              15 treasury balance <> previous + credits - payouts
+     14 a settled record was not pending at the start of the block (paid in the block that recorded it)              15 treasury balance <> previous + credits - payouts
      21 paid before creation height + payout period                             22 cancel succeeded for a request id that is not pending
      31 record accepted for a request id that is still pending                  32 record id not larger than every earlier id of the tenant
      33 an accepted record / cancel reported no event                           34 by-request-id lookup disagrees with the pending set
@@ -336,10 +336,10 @@ Definition codes_in (lo hi : Z) (l : list (Z * Z)) : list (Z * Z) :=
   filter (fun x : Z * Z => (lo <=? snd x) && (snd x <=? hi)) l.
 
 Definition check_C01 := failing (fun c => codes_in 11 19 (settle_check c)).
-Definition check_C02 := failing (fun c => codes_in 21 29 (settle_check c)).
+Definition check_C02 := failing (fun c => codes_in 21 29 (settle_check c) ++ codes_in 14 14 (settle_check c)).
 Definition check_C12 := failing (fun c => codes_in 31 39 (settle_check c) ++ codes_in 12 13 (settle_check c)).
 Definition check_C09 := failing (fun c => codes_in 41 49 (settle_check c)).
-Definition check_C11 := failing (fun c => codes_in 51 59 (settle_check c) ++ codes_in 11 11 (settle_check c)).
+Definition check_C11 := failing (fun c => codes_in 51 59 (settle_check c) ++ codes_in 11 11 (settle_check c) ++ codes_in 15 15 (settle_check c)).
 Definition check_settle := failing settle_check.
 
 (* ---------- oracle family: C05 C08 C10 C14 ----------
@@ -457,3 +457,18 @@ Definition check_C05 := failing (fun c => codes_in 61 62 (oracle_check c)).
 Definition check_C10 := failing (fun c => codes_in 61 64 (oracle_check c)).
 Definition check_C08 := failing (fun c => codes_in 71 79 (oracle_check c)).
 Definition check_C14 := failing (fun c => codes_in 90 99 (oracle_check c)).
+
+(* ---------- C06: panics observed on the implementation ----------
+   80 a transaction ended with the SDK panic error (a handler panicked and baseapp recovered)
+   81 BeginBlock / EndBlock panicked: every node halts at this height *)
+Fixpoint panic_walk (k : Z) (os : list iobs) : list (Z * Z) :=
+  match os with
+  | [] => []
+  | o :: os' =>
+      (match o with
+       | ITx CPanic _ => [(k, 80)]
+       | IEnd CPanic _ _ => [(k, 81)]
+       | _ => []
+       end) ++ panic_walk (k + 1) os'
+  end.
+Definition check_C06 := failing (fun c => panic_walk 0 (cs_obs c)).
